@@ -391,7 +391,9 @@ def run_leg(ctx):
             cases.append((gen_run(rng, st), "%s%d:%s:%s" % st[:4]))
     batch = LeanBatch(ctx.workdir)
     ids = [batch.add("c05.run", run_request(c)) for c, _ in cases]
-    answers = batch.run()
+    from concurrent.futures import ThreadPoolExecutor
+    pool = ThreadPoolExecutor(1)
+    fut = pool.submit(batch.run)  # the model driver (one process) works while the real runs are executed
     solver_name = RUN_SOLVER
     args = [(c["grid"], c["eq"], c["coef"], solver_name[c["scheme"]], c["backend"], c["dt"], c["ts"], c["te"], c["data"], c["solver_options"])
             for c, _ in cases]
@@ -400,6 +402,8 @@ def run_leg(ctx):
     jit_ids = sorted(rng.sample(range(len(cases)), min(n_j, len(cases))))
     res_j = dict(zip(jit_ids, run_many("harness.c05", "run_case", [args[i][:4] + ("numba",) + args[i][5:] for i in jit_ids],
                                        env={"NUMBA_DISABLE_JIT": "0"}, procs=16)))
+    answers = fut.result()
+    pool.shutdown()
     for k, ((c, label), i) in enumerate(zip(cases, ids)):
         cls = CLS[c["grid"]["cls"]]
         ctx.count(c, nontrivial=len(set(c["data"])) > 1, leg="run")
